@@ -101,3 +101,53 @@ From FG Require TTImpl.
 Theorem C11_model_constants_dumped :
   TTImpl.ValueInf = c_value_inf /\ TTImpl.ValueMax = c_value_max /\ TTImpl.ValueCheckMate = c_value_checkmate /\ TTImpl.MaxDepth = c_max_depth /\ TTImpl.ValueCheckMateThreshold = c_value_checkmate_threshold /\ TTImpl.valueShift = c_value_shift /\ Z.of_N TTImpl.TtEntrySize = c_tt_entry_size /\ TTImpl.MaxSizeInMB = c_tt_max_size_mb.
 Proof. exact ConstTie.ttimpl_constants_dumped. Qed.
+
+(* tie of the mate-distance correction and of the capacity arithmetic to the running engine:
+   gen/Tables2_gen.v is regenerated on every run by `verifh dump-tables2`; every number in it is computed by the
+   engine through the hooks search.VerifValueToTT / search.VerifValueFromTT (alphabeta.go valueToTT / valueFromTT,
+   with value.go IsCheckMateValue inside) and transpositiontable.VerifCapacity (the size arithmetic of Resize,
+   math.Log2 / math.Floor on float64 included, nothing allocated). *)
+From FG.gen Require Import Tables2_gen.
+
+(* the samples: (v, ply, valueToTT(v, ply), valueFromTT(v, ply)) for every v within 12 of the mate band on both sides
+   (threshold-12 .. checkmate+12, both signs), values around 0, the named constants and the int16 corners, with
+   plies 0 1 2 3 63 64 127 128 129 255 and, for the band borders, plies that do not fit an int16 *)
+Theorem C11_mate_adjust_dumped :
+  (1000 <=? length c_tt_mate_samples)%nat = true /\
+  forallb (fun '(v, p, a, b) => (valueToTT v p =? a) && (valueFromTT v p =? b)) c_tt_mate_samples = true /\
+  (* not vacuous: both directions and both signs of the correction occur among the samples *)
+  existsb (fun '(v, p, a, b) => (0 <? v) && (v <? a) && (b <? v)) c_tt_mate_samples = true /\
+  existsb (fun '(v, p, a, b) => (v <? 0) && (a <? v) && (v <? b)) c_tt_mate_samples = true /\
+  (* every value the model treats as a mate value, and both neighbours of the band, are sampled at ply 1 *)
+  forallb (fun v => existsb (fun '(v', p, _, _) => (v' =? v) && (p =? 1)) c_tt_mate_samples &&
+                    existsb (fun '(v', p, _, _) => (v' =? - v) && (p =? 1)) c_tt_mate_samples)
+          (map (fun i => ValueCheckMateThreshold + Z.of_nat i) (seq 0 (Z.to_nat (ValueCheckMate - ValueCheckMateThreshold + 2)))) = true.
+Proof. repeat split; vm_compute; reflexivity. Qed.
+
+(* the mate-distance theorem on what the engine computes: on every dumped sample in the domain of C11_mate_adjust the
+   engine's valueToTT result is valid and the model's valueFromTT takes it back *)
+Theorem C11_mate_adjust_on_engine_samples :
+  forallb (fun '(v, p, a, _) =>
+     if (-10000 <=? v) && (v <=? 10000) && (0 <=? p) && (p <=? 128) &&
+        (negb (is_checkmate_value v) || (Z.abs v + p <=? 10000))
+     then (valueFromTT a p =? v) && is_valid a else true) c_tt_mate_samples = true.
+Proof. vm_compute; reflexivity. Qed.
+
+(* capacity: (sizeInMByte, maxNumberOfEntries, hashKeyMask) as Resize computes them, for every size 0..520 MB, around
+   every power of two and 3*2^j up to MaxSizeInMB; this replaces the float-exactness ASSUMPTION of TTImpl.capacity
+   (Floor(Log2(float64 x)) = N.log2 x) on the dumped sizes, among them every 2^j - 1 (the arguments whose logarithm
+   is closest to an integer from below) *)
+Theorem C11_capacity_dumped :
+  (90 <=? length c_tt_capacity)%nat = true /\
+  forallb (fun '(mb, c, m) =>
+     (capacity mb =? c)%N && (cap (new_tt mb) =? c)%N &&
+     ((c =? 0)%N || (mask (new_tt mb) =? m)%N)) c_tt_capacity = true /\
+  forallb (fun j => existsb (fun '(mb, _, _) => mb =? 2 ^ Z.of_nat j - 1) c_tt_capacity &&
+                    existsb (fun '(mb, _, _) => mb =? 2 ^ Z.of_nat j) c_tt_capacity &&
+                    existsb (fun '(mb, _, _) => mb =? 2 ^ Z.of_nat j + 1) c_tt_capacity) (seq 1 8) = true /\
+  existsb (fun '(mb, _, _) => mb =? 0) c_tt_capacity = true.
+Proof. repeat split; vm_compute; reflexivity. Qed.
+
+Print Assumptions C11_mate_adjust_dumped.
+Print Assumptions C11_mate_adjust_on_engine_samples.
+Print Assumptions C11_capacity_dumped.
